@@ -3,6 +3,7 @@ package rules
 import (
 	"fmt"
 	"go/token"
+	"go/types"
 	"strings"
 
 	"golang.org/x/tools/go/ssa"
@@ -127,6 +128,50 @@ func runC42(c *core.Ctx) {
 	}
 	if n == 0 {
 		c.Fail("C42/accept-only-under-quota", "increaseLoad", fn.Pos(), "no accepting exit found")
+	}
+	// the quota threshold is computed in integer arithmetic (a float32 cannot represent large quotas exactly and rounds some of them up)
+	if im := anchorM(c, pkg, "quotaFloodPreventer", "isMaximumReached"); im != nil {
+		fl := ""
+		core.Instrs(im, func(in ssa.Instruction) {
+			cv, ok := in.(*ssa.Convert)
+			if !ok {
+				return
+			}
+			if bt, ok := cv.Type().Underlying().(*types.Basic); !ok || bt.Info()&types.IsFloat == 0 {
+				return
+			}
+			// the (possibly large) absolute quota must stay an integer; only the small percentage may be a float
+			if core.BackwardReachPure(cv.X)[im.Params[1]] {
+				fl = c.P.Pos(in.Pos())
+			}
+		})
+		c.Check(fl == "", "C42/quota-arithmetic", "quotaFloodPreventer.isMaximumReached/integer-only", im.Pos(), "the absolute quota is never converted to floating point", "the absolute quota is converted to floating point in the threshold computation ("+fl+"): large quotas are rounded and can be exceeded")
+	}
+	// the effective per-peer quota is derived from the configured base, never from its own previous value (no ratchet over repeated calls)
+	if ac := anchorM(c, pkg, "quotaFloodPreventer", "ApplyConsensusSize"); ac != nil {
+		n := 0
+		core.Instrs(ac, func(in ssa.Instruction) {
+			st, ok := in.(*ssa.Store)
+			if !ok || !isRecvFieldAddr(ac, st.Addr, "computedMaxNumMessagesPerPeer") {
+				return
+			}
+			n++
+			base, self := false, false
+			for v := range core.BackwardReachPure(st.Val) {
+				k := core.ExprKey(v)
+				if k == "recv.baseMaxNumMessagesPerPeer" {
+					base = true
+				}
+				if k == "recv.computedMaxNumMessagesPerPeer" {
+					self = true
+				}
+			}
+			c.Check(base && !self, "C42/quota-arithmetic", "quotaFloodPreventer.ApplyConsensusSize/from-base", st.Pos(), "computedMaxNumMessagesPerPeer = base + increase",
+				"the effective message quota is computed from its own previous value instead of the configured base: every call raises it further and it never shrinks")
+		})
+		if n == 0 {
+			c.Fail("C42/quota-arithmetic", "quotaFloodPreventer.ApplyConsensusSize", ac.Pos(), "the effective quota is no longer set here: anchor drift")
+		}
 	}
 	c.Floor("C42/accept-only-under-quota", 6)
 }
